@@ -13,7 +13,7 @@ if ! git -C "$WT/r" apply $REV "$PATCH"; then echo "PATCH DOES NOT APPLY"; git -
 cp /verif/known_findings.json "$EV/" 2>/dev/null
 cp /verif/MANIFEST.json "$EV/" 2>/dev/null
 for id in "$@"; do
-  out=$(/verif/bin/gocoverif check "$id" --repo "$WT/r" --verif "$EV" --no-controls 2>&1); rc=$?
+  out=$(${BIN:-/verif/bin/gocoverif} check "$id" --repo "$WT/r" --verif "$EV" --no-controls 2>&1); rc=$?
   nv=$(printf '%s\n' "$out" | grep -c '^VIOLATION')
   echo "== $id exit=$rc violations=$nv"
   printf '%s\n' "$out" | grep -E 'violation:|undecided' | cut -c1-400 | head -${SHOW:-6}
